@@ -42,27 +42,25 @@ class Run:
 def run_marked(script, variant="fast", timeout=10.0, pipe=False, env_extra=None, text=None):
     text = text if text is not None else render_marked(script)
     o = run.run_text(text, variant, timeout, pipe=pipe, env_extra=env_extra)
-    parts = run.split_responses(o.stdout)
+    import re
     resp = {}
-    cur = []
     n = len(script["cmds"])
     seen = 0
     nxt = -1
-    for p in parts:
-        if p.startswith(MARK):
-            try:
-                idx = int(p[len(MARK):])
-            except ValueError:
-                cur.append(p)
-                continue
-            resp[idx] = cur
+    cur = []
+    for line in o.stdout.split("\n"):
+        m = re.match(r"^@@M(-?\d+)$", line)
+        if m:
+            idx = int(m.group(1))
+            resp[idx] = run.split_responses("\n".join(cur))
             cur = []
             seen += 1
             nxt = idx + 1
         else:
-            cur.append(p)
-    if cur:
-        resp[nxt] = resp.get(nxt, []) + cur
+            cur.append(line)
+    rest = run.split_responses("\n".join(cur))
+    if rest:
+        resp[nxt] = resp.get(nxt, []) + rest
     return Run(o, resp, seen == n + 1)
 
 
